@@ -24,6 +24,7 @@ impl Space {
                 k,
                 count: match name {
                     "FX" => fam::fx_count(),
+                    "FP" => fam::fp_count(),
                     "FS" => fam::fs_count(k),
                     "FC" => fam::fc_count(k),
                     "FA" => fam::fa_count(k),
@@ -44,6 +45,7 @@ impl Space {
             if idx < p.count {
                 let g = match p.name {
                     "FX" => fam::fx_decode(idx),
+                    "FP" => fam::fp_decode(idx),
                     "FS" => fam::fs_decode(idx, p.k),
                     "FC" => fam::fc_decode(idx, p.k),
                     "FA" => fam::fa_decode(idx, p.k),
